@@ -14,6 +14,7 @@
 //!       {"do":"PollWoken"}  poll every worker whose waker fired (timers, stop messages)
 
 mod e2e;
+mod load;
 
 use actix_server::verif::{Act, AvailProbe, LKind, Sim, SimCfg, Snap, SvcEvent};
 use vcore::{arg, geti, gets, json, read_ndjson, Trace, Value};
@@ -567,6 +568,34 @@ fn main() {
             println!("{}", json!({"runs": scenarios.len(), "steps": nev, "mismatches": 0, "first_mismatches": []}));
         }
         "e2e-child" => e2e::child_main(),
+        // end-to-end load scenarios on a real Server built through ServerBuilder
+        "e2e-load" => {
+            let scenarios = read_ndjson(&arg("--scenarios").expect("--scenarios"));
+            let mut trace = Trace::create(&arg("--trace").expect("--trace"));
+            let dir = std::env::temp_dir().join(format!("vsrv-load-{}", std::process::id()));
+            std::fs::create_dir_all(&dir).unwrap();
+            let d = dir.display().to_string();
+            let handles: Vec<_> = scenarios
+                .iter()
+                .cloned()
+                .map(|sc| {
+                    let d = d.clone();
+                    std::thread::spawn(move || load::run_scenario(&sc, &d))
+                })
+                .collect();
+            let mut nev = 0usize;
+            for (run, (h, sc)) in handles.into_iter().zip(scenarios.iter()).enumerate() {
+                let events = h.join().unwrap_or_else(|_| vec![json!({"e": "DriverPanic"}), json!({"e": "End"})]);
+                trace.emit(&json!({"ev": "reset", "run": run, "scenario": sc}));
+                for rec in load::project(run, sc, &events) {
+                    trace.emit(&rec);
+                    nev += 1;
+                }
+            }
+            trace.finish();
+            let _ = std::fs::remove_dir_all(&dir);
+            println!("{}", json!({"runs": scenarios.len(), "steps": nev, "mismatches": 0, "first_mismatches": []}));
+        }
         other => panic!("unknown mode {other}"),
     }
 }
